@@ -132,4 +132,21 @@ example : ((Srv.run (effMax none) true (.reading [] false)
     [.data [0x61,0x6e,0x65,0x6d,0x6f,0,1,0, 0,0,0,0x11], .data [1,0,0,0,0,0,0,0,0x2f, 0,0,0,0,0,0,0,0, 0,0,0,0],
      .handlerDone ⟨.Success, [], [7], .V1, []⟩, .readAll]).2.filter isInvoke).length = 1 := by decide
 
+
+/-- **The serving and calling sequences are the ones the stream machine models**, read off the source on
+this run: `do_handle` = read the request; stamp it with the connection's PeerId, origin, remote address
+and direction; run the service (`oneshot`: readiness and call inside ONE future) raced, unconditionally,
+against the caller stopping the response stream; write the response; finish; wait until the peer has
+read it.  `do_rpc` = open a stream; frame both halves with the configured codec; write the request;
+finish; read ONE response; stamp it with the connection's PeerId; return it.  Around them (shapes
+recognised, `rpcPathShapeChecked`): `Network::rpc` is one lookup and one call (no retry), `Peer::call`
+stamps the request and wraps `do_rpc` in the outbound layer, the accept loop drops unidirectional
+streams, spawns one task per bidirectional stream and ignores datagrams. -/
+theorem C02_rpc_path_is_translated :
+    Gen.serveStepsGen = [.readRequest, .stampPeerId, .stampOrigin, .stampRemoteAddr, .stampInbound,
+                         .raceHandlerWithStop, .writeResponse, .finishSend, .awaitStopped, .returnOk] ∧
+    Gen.callStepsGen = [.openBi, .frameSend, .frameRecv, .writeRequest, .finishSend, .readResponse,
+                        .stampResponsePeerId, .returnResponse] ∧
+    Gen.rpcPathShapeChecked = true := ⟨rfl, rfl, rfl⟩
+
 end Anemo
